@@ -150,6 +150,8 @@ func cmdBMC(args []string) {
 	params := fs.String("params", "", "")
 	solver := fs.String("solver", "z3", "")
 	maxEv := fs.Int("maxevents", 400, "")
+	tmo := fs.Int("timeout", 120, "solver timeout per query, seconds")
+	hunt := fs.Bool("hunt", false, "search mode: undecided queries are not an error")
 	fs.Parse(args)
 	pr, err := loadProgram(*repo, *hdir)
 	if err != nil {
@@ -161,7 +163,7 @@ func cmdBMC(args []string) {
 		v, _ := strconv.Atoi(s)
 		ps = append(ps, v)
 	}
-	r := sym.ModelCheck(pr, pr.ModPath+"/zzvh", *name, ps, *solver, 120000, true, *maxEv)
+	r := sym.ModelCheck(pr, pr.ModPath+"/zzvh", *name, ps, *solver, *tmo*1000, true, *maxEv, *hunt)
 	fmt.Printf("verdict=%s kind=%s steps=%d transitions=%d statevars=%d queries=%d solver=%.2fs %s\n", r.Verdict, r.Kind, r.Steps, r.Transitions, r.StateVars, r.Queries, r.SolverS, r.Detail)
 	for _, n := range r.Notes {
 		fmt.Println("  note:", n)
